@@ -10,10 +10,10 @@ def applyNames : List String :=
   ["applyNumberFormat", "applyFont", "applyFill", "applyBorder", "applyAlignment", "applyProtection"]
 
 /-- the first `<xf>` of `cellStyleXfs` (the library's `def_cell_format` for EVERY cell xf, `xfId` is not read) carries
-    no `apply*` attribute and no alignment / protection child -/
+    no `apply*` attribute (it may have an alignment / protection child: those are no longer handed on to the cell xfs) -/
 def defNeutral : Option Node → Bool
   | none => true
-  | some d => applyNames.all (fun k => (d.attr? k.toList).isNone) && (d.kid? "alignment").isNone && (d.kid? "protection").isNone
+  | some d => applyNames.all (fun k => (d.attr? k.toList).isNone)
 
 /-- shape: unprefixed element names in the root and in every table, each table at most once -/
 def stylesShape (root : Node) : Bool :=
@@ -79,15 +79,11 @@ theorem styleTable_eq (root : Node) :
 theorem neutral_of (d : XfR) (dn : Node) (hx : XfAgrees d dn) (hn : defNeutral (some dn) = true) : Neutral d := by
   simp only [defNeutral, applyNames, List.all_cons, List.all_nil, Bool.and_true, Bool.and_eq_true,
     Option.isNone_iff_eq_none] at hn
-  obtain ⟨⟨⟨a1, a2, a3, a4, a5, a6⟩, ha⟩, hp⟩ := hn
+  obtain ⟨a1, a2, a3, a4, a5, a6⟩ := hn
   have hf := hx.flags
   simp only [a1, a2, a3, a4, a5, a6, Option.map_none, Prod.mk.injEq] at hf
   obtain ⟨f1, f2, f3, f4, f5, f6⟩ := hf
-  have h7 := hx.alignment
-  have h8 := hx.protection
-  rw [ha, Option.map_none, Option.map_eq_none_iff] at h7
-  rw [hp, Option.map_none, Option.map_eq_none_iff] at h8
-  exact ⟨f1, f2, f3, f4, f5, f6, h7, h8⟩
+  exact ⟨f1, f2, f3, f4, f5, f6⟩
 
 /-- **the style sheet as a whole**: `Stylesheet::set_attributes` + `make_style` on a valid `styles.xml` do not panic
     and `maked_style_list` holds, xf by xf, the decoder's facts -/
@@ -140,7 +136,7 @@ theorem styles_agree (cf : Tok → Tok) (root : Node) (h : validStyles root = tr
           | cons a r => rw [hq] at hh; simp at hh
         exact List.eq_nil_of_length_eq_zero (by rw [hsxl, hl])
       rw [this]
-      exact ⟨rfl, rfl, rfl, rfl, rfl, rfl, rfl, rfl⟩
+      exact ⟨rfl, rfl, rfl, rfl, rfl, rfl⟩
     | some dn =>
       obtain ⟨d, hd0, hda⟩ := hsxv 0 dn hh
       rw [hd0]
